@@ -109,7 +109,7 @@ CLAIMED = {
              "the planned path satisfies the structural equations; every non-singular scenario is run through SimulationPlan + simulate(plan=...) "
              "under method first_order (also frame by frame, force_split_frames=True) and, in level mode, stacked_time, and compared (targets hit, shocks recovered, whole path, "
              "other shocks unchanged); two scenarios with the same plan are also run as the two variants of one input databox.",
-        note="Trusted: TLC, numpy primitives, the neqs solver for stacked_time. Bounds: library models L1, L2, L3, L9; <= 2 (target, instrument) pairs. Anticipated plans "
+        note="Trusted: TLC, numpy primitives, the neqs solver for stacked_time. Bounds: library models L1, L2, L3, L6 (log-variables), L9; <= 2 (target, instrument) pairs (also with the first shock as the later instrument). Anticipated plans "
              "are combined with anticipated base shocks only (mixing them with later surprises is not specified). Two known findings (stacked_time ignores "
              "unanticipated targets dated differently from their instrument; frame-by-frame first_order fails when a frame break separates an unanticipated instrument from its target).",
         design="5/C07", technique="TLA+ spec (PlansMC over LinearRE) model-checked by TLC; every TLC-computed scenario replayed into irispie"),
